@@ -212,7 +212,7 @@ class Repo(object):
             inv = equiv.inventory()
         except Exception:
             inv = None
-        normal.Normalizer(mods, inventory=inv, only={qual}).run()
+        normal.Normalizer(mods, inventory=inv, only={qual}, context=self.modules).run()
         out = None
         for name, m in mods.items():
             for q, fn, body, cls in equiv.functions(m.tree, name):
